@@ -7,6 +7,7 @@ import (
 	"fmt"
 
 	"github.com/kercylan98/vivid"
+	"github.com/kercylan98/vivid/internal/actor"
 	"github.com/kercylan98/vivid/internal/verif/vexp"
 	"github.com/kercylan98/vivid/internal/verif/vrt"
 	"github.com/kercylan98/vivid/internal/verif/vsys"
@@ -228,10 +229,12 @@ func scenario(p params, bounds []int) *vexp.Scenario {
 					x.Fail("prelaunch-failure-silent", "Prelaunch failed at spawn but /p/a is registered")
 				}
 			}
+			lateRefused := false
 			if p.lateSpawn {
 				vrt.Go("late-spawner", func() {
 					if _, err := w.SpawnRoot(&vsys.Script{Name: "late"}); err != nil {
 						x.Logf("late ActorOf: %v", err)
+						lateRefused = true
 					}
 				})
 			}
@@ -239,6 +242,17 @@ func scenario(p params, bounds []int) *vexp.Scenario {
 				x.Logf("stop: %v", err)
 			}
 			vrt.Quiesce()
+			if p.lateSpawn && lateRefused {
+				// ActorOf returned an error: the actor never receives anything - and cannot, nothing is left under its name
+				if n := len(w.EntriesOf("/late")); n > 0 {
+					x.Fail("prelaunch-failure-silent", "ActorOf(late) returned an error but /late's behaviour received %d messages", n)
+				}
+				for _, r := range actor.VerifSys(w.Sys).Registry {
+					if r == "/late" {
+						x.Fail("prelaunch-failure-silent", "ActorOf(late) returned an error but an actor is registered under /late (it would receive whatever is sent to that path)")
+					}
+				}
+			}
 			vsys.CheckLifecycle(w)
 			if p.decision != vivid.SupervisionDecisionEscalate {
 				// the supervisor /p is one-for-one and the failure is a's (or is escalated by a): a restart concerns /p/a and nobody else
@@ -354,7 +368,9 @@ func build(tier string) []*vexp.Scenario {
 		q := base
 		q.lateSpawn = true
 		out = append(out, scenario(q, []int{0, 1, 2}))
-		out = append(out, vexp.Fine(scenario(q, []int{0, 1}), "vivid/internal/actor.", "vivid/internal/mailbox."))
+		out = append(out, vexp.Split(4, func() *vexp.Scenario {
+			return vexp.Fine(scenario(q, []int{0, 1, 2}), "vivid/internal/actor.", "vivid/internal/mailbox.")
+		})...)
 	}
 	// the same prelaunch failures with the actor assembled from parts (public helper API): a failure of the first part counts
 	for _, pl := range []string{"spawn", "restart"} {
